@@ -90,6 +90,50 @@ class ReadInterp(Interp):
             return self.eval(fr, body)
         finally:
             self.depth -= 1
+            self.last_frame = (fr, params)
+
+    @staticmethod
+    def _mut_ref_var(a):
+        """var id when the argument is `&mut local` (possibly re-borrowed): the callee writes the caller's variable."""
+        if a.get("k") != "Borrow" or not a.get("mut"):
+            return None
+        x = a
+        while x.get("k") in ("Borrow", "Deref", "Scope", "Use", "NeverToAny", "PtrCoerce") and x.get("e") is not None:
+            if x.get("k") == "Borrow" and not x.get("mut"):
+                return None
+            x = x["e"]
+        return x["var"]["id"] if x.get("k") == "Var" else None
+
+    def _call_local(self, fr, res, args, vals):
+        """run a crate function; values the callee stored through `&mut local` parameters flow back into the caller's locals"""
+        v = self.run_fn(res, vals)
+        cfr, params = self.last_frame
+        # `let x = x;` re-bindings of parameters (async fn bodies start with them): the reference lives on under the new id
+        alias = {}
+        for x in walk_all(nbody(self.F, res)):
+            if x.get("k") == "Block":
+                for st in x.get("stmts", []):
+                    if st.get("k") == "Let" and st.get("init") is not None and st["pat"].get("k") == "Binding":
+                        src = strip(st["init"])
+                        if src.get("k") in ("Var", "Upvar"):
+                            alias[st["pat"]["var"]["id"]] = src["var"]["id"]
+        for a, p in zip(args, params):
+            vid = self._mut_ref_var(a)
+            pat = p.get("pat") or {}
+            if vid is not None and pat.get("k") == "Binding":
+                pid = pat["var"]["id"]
+                for new, old in alias.items():
+                    o = old
+                    while o in alias:
+                        o = alias[o]
+                    if o == pid and new in cfr.env:
+                        pat = {"k": "Binding", "var": {"id": new}}
+            if vid is not None and pat.get("k") == "Binding" and isinstance(fr.env.get(vid), (Poly, Opaque)) or \
+                    (vid is not None and pat.get("k") == "Binding" and vid in fr.env and isinstance(cfr.env.get(pat["var"]["id"]), (Poly, Opaque))):
+                new = cfr.env.get(pat["var"]["id"])
+                if new is not None:
+                    fr.env[vid] = new
+        return v
 
     # -- substitution of aliases into a polynomial
     def resolve(self, p):
@@ -848,6 +892,13 @@ class ReadInterp(Interp):
             self.consumed = self.consumed + Poly.const(2) + g_val(sym)
             self.reads.append(("call", res, [("call", "common::utils::read_u16", [("read_exact", "2")], sym[0]), ("read_exact", "val(%s)" % sym[0])], sym[0]))
             return BufVal(g_val(sym))
+        if name == "map" and len(args) == 2 and (d.startswith("core::result::Result") or d.startswith("core::option::Option")):
+            # `read(..).await.map(Arc::new)?` / `.map(|s| Arc::new(s))`: the mapped value of the success case
+            v = self.eval(fr, args[0])
+            f = self.eval_quiet(fr, args[1])
+            if isinstance(f, tuple) and f and f[0] in ("closure", "fnitem"):
+                return self.apply_fn(fr, f, [v], args[1])
+            return Opaque("mapped")
         callee = self.F.fns.get(res)
         local = callee is not None and fn.get("krate") == self.F.data["crate"]
         if local and callee.get("is_async"):
@@ -866,7 +917,7 @@ class ReadInterp(Interp):
             stack = getattr(self, "const_args", [])
             self.const_args = stack + [consts]
             try:
-                v = self.run_fn(res, vals)
+                v = self._call_local(fr, res, args, vals)
             finally:
                 self.const_args = stack
             sub = self.reads[r0:]
@@ -878,7 +929,7 @@ class ReadInterp(Interp):
             vals = [self.eval_quiet(fr, a) for a in args]
             if any((isinstance(v, Poly) and not v.is_const()) or (isinstance(v, tuple) and v and v[0] == "struct") for v in vals):
                 try:
-                    return self.run_fn(res, vals)
+                    return self._call_local(fr, res, args, vals)
                 except Unsupported:
                     pass
             # arguments were evaluated (and their reads counted) exactly once
